@@ -1,11 +1,14 @@
 #!/bin/bash
-# try_seed.sh <seed id> <check> [<check>...] : applies /verif/seeded/<id>/patch.diff to /repo, runs the quick checks, restores /repo.
+# try_seed.sh <seed id> <check> [<check>...] : applies seeded/<id>/patch.diff to /repo, runs the quick checks, restores /repo.
+# SEED_REPO=<scratch worktree of /repo> tries the seed there instead (VERIF_REPO is pointed at it).
+# Works from whichever copy of /verif the script lives in (so it can run from a `vp run` snapshot while /verif is edited).
 ID=$1; shift
-cd /verif
-R=${SEED_REPO:-/repo}   # SEED_REPO=<scratch worktree of /repo> tries the seed there instead (VERIF_REPO is pointed at it)
+V=$(cd "$(dirname "$0")/.." && pwd)
+cd $V
+R=${SEED_REPO:-/repo}
 export VERIF_REPO=$R
-git -C $R diff --quiet || { echo "/repo has uncommitted changes"; exit 2; }
-git -C $R apply /verif/seeded/$ID/patch.diff || { echo "patch does not apply"; exit 2; }
+git -C $R diff --quiet || { echo "$R has uncommitted changes"; exit 2; }
+git -C $R apply $V/seeded/$ID/patch.diff || { echo "seed=$ID patch does not apply"; exit 2; }
 trap 'git -C $R checkout -- .' EXIT
 export VERIF_EVIDENCE_DIR=/var/tmp/ev_seed VERIF_REPLAYS_NEW=/var/tmp/replays_seed_$ID
 for c in "$@"; do
